@@ -256,7 +256,8 @@ def eval_stream(c, gen_sub, independent=True, budget_ms=3000, gen_extra=(), judg
         return None
     rd = lambda n: open(os.path.join(c.work, n), encoding="utf-8", errors="replace").read().split("\n")
     R, I, M = rd("req.txt"), rd("impl.txt"), rd("model.txt")
-    E = rd("expect.txt") if os.path.exists(os.path.join(c.work, "expect.txt")) else None
+    E = rd("expect.txt") if os.path.exists(os.path.join(c.work, "expect.txt")) and gen_sub == "gen-c01" else None
+    AUX = rd("aux.txt") if os.path.exists(os.path.join(c.work, "aux.txt")) and gen_sub != "gen-c01" else None
     n = len(R) - 1 if R and R[-1] == "" else len(R)
     if not (len(I) >= n and len(M) >= n):
         c.violation("streams", "answer streams are shorter than the request stream (req=%d impl=%d model=%d)" % (n, len(I), len(M)),
@@ -282,7 +283,17 @@ def eval_stream(c, gen_sub, independent=True, budget_ms=3000, gen_extra=(), judg
             elif I[i] != E[i]:
                 bad = "expected %r, implementation answered %r" % (E[i][:160], I[i][:160])
         if bad is None and judge:
-            bad = judge(text, I[i], hist)
+            aux = None
+            if AUX is not None and i < len(AUX) and AUX[i]:
+                try:
+                    aux = json.loads(AUX[i])
+                except ValueError:
+                    aux = None
+            bad = judge(text, I[i], aux)
+            if bad:
+                oracle_checked += 0
+            if aux is not None:
+                oracle_checked += 1
         if bad is None and I[i] in ("panic", "abort", "timeout"):
             bad = "implementation answered %r" % I[i]
         if bad:
